@@ -10,9 +10,11 @@ names = sorted(set(names), key=lambda n: (not n.startswith('gate'), n))
 FLAGS = ["--default-unwind", "20", "-Z", "unstable-options", "--no-assertion-reach-checks"]
 SETS = {'_a_': 'S3_A = {x0&x1, (x0&x1)|x2}',
         '_b_': 'S3_B = {x0&x1, (x0&x1)|x2, x0^x1, x1, x0&(x1->x2)}',
-        '_c_': 'S3_C = {x0^x1^x2, maj(x0,x1,x2), x0&!x2, x1|x2}'}
+        '_c_': 'S3_C = {x0^x1^x2, maj(x0,x1,x2), x0&!x2, x1|x2}',
+        '_d_': 'S3_D = {x1|(x0&x2), x0&x2} (in this insertion order)',
+        '_e_': 'S3_E = {x0&x2, x1|(x0&x2)} (in this insertion order)'}
 QUICK = {'gate_bdd3_a_level_down_0', 'bdd3_a_level_down_any', 'bdd3_b_level_down_0', 'bdd3_b_set_var_order_102',
-         'bdd3_b_set_var_order_120', 'bdd4_a_level_down_1'}
+         'bdd3_b_set_var_order_120', 'bdd3_d_level_down_0', 'bdd4_e_level_down_2'}
 
 def bounded(n):
     kind = 'BCDD (complement edges, real BCDDRules)' if n.startswith('bcdd') else 'simple BDD (real BDDRules)'
@@ -45,6 +47,11 @@ def bounded(n):
 
 hs = []
 for n in names:
+    if n.startswith('selftest_'):
+        hs.append({"name": "verif_k3::proofs::" + n, "props": ["C08"], "tier": "selftest", "flags": FLAGS, "timeout": 900,
+                   "bounded": "vacuity self-test of the audit / reference manager on S3_A; must be refuted",
+                   "functions": [], "file": "crates/oxidd-reorder/src/lib.rs"})
+        continue
     ld = 'level_down' in n
     fns = ["level_down", "level_swap", "update_level_no"] if ld else \
         ["set_var_order_seq", "set_var_order_common", "sort_order", "bubble_sort", "update_levels_seq", "level_swap", "update_level_no"]
